@@ -562,6 +562,18 @@ func checkEnums(p *Program, r *Report, pl *Policy) {
 			}
 			return isAttrValueEmptyCmp(a) && a.Pol
 		}, 0)
+		// the return may sit in a helper: the forwarding returns of the callers count as well
+		for _, vb := range alt.Via {
+			if ok {
+				break
+			}
+			ok = allPathsGuard(ci.CE.pv, vb, func(a Atom) bool {
+				if a.E.Op == "call" && a.E.Fn == f && !a.Pol {
+					return true
+				}
+				return isAttrValueEmptyCmp(a) && a.Pol
+			}, 0)
+		}
 		r.Check(ok, "C04.R4", fmt.Sprintf("template.sanitizersForAttributeValue#partial-enum-guard@%s", alt.Names()), p.Pos(alt.Ret.Pos()), "reached only when the context is not an enum or the static value is empty", "a chain is returned for an enum context although a static partial value precedes the action")
 	}
 }
